@@ -19,7 +19,7 @@ from lib import core
 
 from . import lalr
 
-RUST_BIN = os.path.join(core.VERIF, 'harness', 'rust', 'build', 'edb_lex')
+RUST_BIN = os.path.join(core.VERIF, 'harness', 'rust', 'build', 'edb_lex' if core.REPO == '/repo' else 'edb_lex-' + __import__('hashlib').md5(core.REPO.encode()).hexdigest()[:10])
 CACHE_DIR = os.path.join(core.VERIF, '.cache')
 PREC_MODE = os.environ.get('EDB_VERIF_PREC_MODE', 'last')
 
